@@ -29,6 +29,25 @@ CLAIMED = {
             'moves no token; the timeout is armed exactly for timeout >= 0 (same sentinel as ActivityImpl::wait_for and the S4U layer); MC and non-MC branches run the same kernel sequence.',
             'Trusts clang AST/CFG; fairness among actors woken at the same date and the dates themselves are not decided.',
             'DESIGN.md §3 C05'),
+    'C06': ('container discipline, must-pass-through on every CFG path, loop shape, guard dominance, sibling agreement of MC/non-MC branches',
+            'signal grants exactly the front waiter or nothing, broadcast is the draining loop, waiting releases the mutex under the ownership assertion and enqueues at the back; '
+            'every path of ConditionVariableAcquisitionImpl::finish that lets the waiter go outside MC mode passes through lock_async(..)->wait_for(..,-1) on the observer mutex, '
+            'timeout path included; the timeout result/cancel pairing and the timeout>=0 sentinel (with the S4U mapping of negative durations to 0) are checked; all on every path, '
+            'hence for every program and interleaving.',
+            'Trusts clang AST/CFG; who gets woken among equal dates and the dates themselves are not decided.',
+            'DESIGN.md §3 C06'),
+    'C07': ('linear guard normal form (integer inequalities), container discipline, path rules, who-may-write',
+            'The arriving actor is queued iff queue.size()+1 < expected (any equivalent spelling accepted through the linear normal form); the release path grants every queued '
+            'acquisition in queue order, finishes the blocked ones, clears the queue once and grants the arriving one; granted_ has no other writer; wait_for finishes at once only '
+            'when granted; MC and non-MC branches of Barrier::wait agree. Decides the group-of-n release for every n and every arrival order.',
+            'Assumes expected_actors_ >= 1 (unsigned n-1 must not wrap).',
+            'DESIGN.md §3 C07'),
+    'C09': ('container discipline (FIFO), must-pass-through with inlining of base-class delegation, path rules on match/push exclusivity',
+            'MessageQueueImpl::queue_ is inserted only at the back and searched begin()->end() with the type-equality predicate; the found element is erased exactly once; on every '
+            'path of iput/iget exactly one of match/push happens and the observer gets that message; every path of MessImpl::wait_for (ActivityImpl::wait_for inlined) registers the '
+            'simcall exactly once; finish stores the payload only in state DONE and answers each live registered simcall.',
+            'User-level payload lifetime and the timing of puts/gets are not decided.',
+            'DESIGN.md §3 C09'),
 }
 
 NOT_APPLICABLE = {
